@@ -581,4 +581,49 @@ def queryB (b : Builder) : Query → Answer
   | .getOption n ib => .opt (b.getOption n ib)
   | .getOptions ib => .opts (b.getOptions ib)
 
+/-! ### Deciders of the hypotheses of the C06 theorems
+
+The theorems of `Props/C06.lean` assume that the elements handed to the builder are what the
+element constructors produce (`Opt.wf`, `CmdOpt.wf`, `Op.wf` in `Lemmas/Builder.lean`) and that
+the base format is itself a built format.  These are the executable forms: the driver answers
+them on the names read from the REAL element objects of every case (`c06.wf`). -/
+
+/-- `len(s) == 1` for an optional short name (`None` passes) -/
+def shortOkB : Option Str → Bool
+  | some s => s.length == 1
+  | none => true
+
+/-- decides `Opt.wf`: long name of at least two characters, short name of exactly one -/
+def Opt.wfB (o : Opt) : Bool := decide (2 ≤ o.long.length) && shortOkB o.short
+
+/-- decides `CmdOpt.wf` -/
+def CmdOpt.wfB (c : CmdOpt) : Bool :=
+  decide (2 ≤ c.long.length) && shortOkB c.short &&
+  c.longAliases.all (fun a => decide (2 ≤ a.length)) && c.shortAliases.all (fun a => a.length == 1)
+
+/-- decides `Op.wf` -/
+def Op.wfB : Op → Bool
+  | .addOption o => o.wfB
+  | .addOptions os => os.all Opt.wfB
+  | .setOptions os => os.all Opt.wfB
+  | .addCommandOption c => c.wfB
+  | .addCommandOptions cs => cs.all CmdOpt.wfB
+  | .setCommandOptions cs => cs.all CmdOpt.wfB
+  | _ => true
+
+/-- decides that the single addition an element stands for is well formed -/
+def Elem.wfB : Elem → Bool
+  | .opt o => o.wfB
+  | .copt c => c.wfB
+  | _ => true
+
+/-- a chain of base formats, innermost first: each level is `ArgsFormat(elements, previous)`;
+the first rejected level raises -/
+def ctorChain : List (List Elem) → Option FormatRec → Except Err (Option FormatRec)
+  | [], base => .ok base
+  | es :: rest, base =>
+    match ctor es base with
+    | .ok f => ctorChain rest (some f)
+    | .error e => .error e
+
 end Clikit.ArgsFmt
